@@ -39,3 +39,5 @@ func extraCoverage(prop string, agg *sim.Summary) map[string]interface{} {
 	}
 	return nil
 }
+
+func selftest() int { return selftestImpl() }
